@@ -21,7 +21,7 @@ T = {
          "image of the forward conversion as the definition of existing lunar dates"),
  "C08": ("reflection-discovered zero-argument accessors called on every reachable object for generated dates; panics, index ranges, vocabulary membership, duplicates",
          "exported tables (and hook-exported yi/ji, shen-sha vocabularies) as the published vocabularies; explicit may-be-empty list"),
- "C09": ("generated call histories vs fresh-cache digests (rapid state machine) and generated concurrent programs vs sequential digests, also under the Go race detector; deadlock via the runtime detector in a child process",
+ "C09": ("generated call histories vs fresh-cache digests and vs the same probe in a fresh child process (rapid-generated histories, years -799..9990) and generated concurrent programs vs sequential digests, also under the Go race detector; deadlock via the runtime detector in a child process",
          "Go scheduler is not controlled: schedules are sampled; race detector finds unordered executed access pairs"),
  "C10": ("round-trip: forward pillars of generated moments (dense around Jie instants, the rat hour, Lichun) -> reverse lookup must contain the slot; soundness and order of every returned list",
          "forward pillar accessors (checked by C05) define 'has those pillars'"),
